@@ -88,7 +88,16 @@ impl Timer {
         self.last_tick
     }
 
+    /// Discards a tick that has fired but was not awaited yet.
+    ///
+    /// Such a tick belongs to the period before the timer was (re)started,
+    /// reset or stopped, and must not be observed afterwards.
+    fn drain_ticks(&mut self) {
+        while self.tick_recv.try_recv().is_ok() { }
+    }
+
     pub fn start(&mut self) {
+        self.drain_ticks();
         self.started = true;
         let (stop_send, stop_recv) = oneshot::channel();
         let (reset_send, reset_recv) = mpsc::channel(1);
@@ -132,6 +141,7 @@ impl Timer {
     pub fn stop_and_reset(&mut self) {
         if let Some(tx) = self.stop_send.take() {
             let _ = tx.send(());
+            self.drain_ticks();
             self.last_reset = Instant::now();
         } else {
             warn!("trying to stop stopped timer");
@@ -146,6 +156,7 @@ impl Timer {
     pub fn reset(&mut self) {
         if let Some(tx) = &self.reset_send {
             let _ = tx.try_send(());
+            self.drain_ticks();
             self.last_reset = Instant::now();
         } else {
             warn!("trying to reset a stopped timer");
